@@ -230,6 +230,9 @@ pub enum Start {
     Fresh,
     /// a foreign-layout file synthesized from a small tree (seeded)
     Foreign { seed: u64 },
+    /// a foreign-layout file carrying tolerated deviations (index into the C16 injector
+    /// list, selector); opened permissively, never judged by strict reopen
+    Deviant { seed: u64, devs: Vec<(u8, u16)> },
 }
 
 #[derive(Clone, Debug, PartialEq, Eq, Serialize, Deserialize)]
